@@ -73,6 +73,12 @@ def snap(w, n):
     return walk(w.objs[n], None)
 
 
+def _walk(x):
+    yield x
+    for c in x.children:
+        yield from _walk(c)
+
+
 def snap_noid(x):
     return (x.name, x.content, x.tail, x.prefix, tuple(x.attributes.items()), tuple(x.extras.items()),
             tuple(x.nsmap.items()), tuple(snap_noid(c) for c in x.children))
@@ -234,6 +240,25 @@ def run(ctx):
             ctx.count("edit:" + ed[-1][0])
             if r is not None:
                 ctx.count("edit_raised:" + r)
+            # history sensitivity: copy the edited tree AGAIN (same objects, after an in-place edit); the new copy
+            # must equal the tree as it is now, with ids nobody uses
+            if r is None:
+                edited_root = w2.objs[target if side == "original" else n2]
+                in_use = set(w2.Node.store.keys()) | {o.id for o in w2.objs}
+                try:
+                    again = edited_root.copy()
+                    if snap_noid(again) != snap_noid(edited_root):
+                        ctx.fail("C12:equal-after-edit", f"a copy taken after an in-place edit ({ed[-1][0]}) differs from the edited tree",
+                                 {"kind": "impl-vs-statement", "script": [list(x) for x in full], "edit": [list(x) for x in ed],
+                                  "edited_tree": side, "tree_now": snap_noid(edited_root), "copy": snap_noid(again)})
+                    new_ids = [x.id for x in _walk(again)]
+                    if len(set(new_ids)) != len(new_ids) or set(new_ids) & in_use:
+                        ctx.fail("C12:fresh-after-edit", "ids of a copy taken after an edit are not fresh",
+                                 {"kind": "impl-vs-statement", "script": [list(x) for x in full], "edit": [list(x) for x in ed], "ids": new_ids})
+                except Exception as e:
+                    ctx.fail("C12:raises-after-edit", f"copy() after {ed[-1][0]} raised {type(e).__name__}",
+                             {"kind": "impl-vs-statement", "script": [list(x) for x in full], "edit": [list(x) for x in ed]})
+                after_other = snap(w2, other) if after_other == before_other else after_other
             if after_other != before_other:
                 ctx.fail(f"C12:frame:{ed[-1][0]}",
                          f"an edit ({ed[-1][0]}) applied inside the {side} is visible in the other tree",
